@@ -26,7 +26,7 @@ PROPERTY = {
                    "and kind. Bounded: exploration, not proof.",
     "rule": "one case = one architecture / mode, one chunk of 100 byte strings and one group of failure classes (the classes of one known finding of that architecture, or every other class)",
     "trusted_base": ["CPython executes the real printers, parsers, assemblers and decoders; the sampling and the comparison are written in props/C16.py"],
-    "assumptions": ["seeded family: 14 architectures / modes x 6 chunks x 100 strings quick (x 60 chunks thorough)",
+    "assumptions": ["seeded family: 14 architectures / modes x 10 chunks x 100 strings quick (x 200 chunks thorough)",
                     "an instruction the decoder refuses is not a case"],
 }
 
@@ -42,7 +42,7 @@ def check_one(name, attrib, data, addr):
         return None
     if ins is None:
         return None
-    fam, base = family(name), base_mnemo(name, ins.name)
+    fam, base = family(name), base_mnemo(name, ins)
     text = str(ins)
     what = "%s `%s` (%s) at %#x" % (name, text, data[:ins.l].hex(), addr)
     loc_db = LocationDB()
@@ -103,7 +103,7 @@ class ParseCases(BoundedContract):
         return [cls_mn.fromstring.__func__, instruction.to_string, cls_mn.asm.__func__, cls_mn.dis.__func__]
 
     def cases(self):
-        n = 6 if self.tier == "quick" else 60
+        n = 10 if self.tier == "quick" else 200
         out = []
         for a in range(len(ARCHS)):
             fam = family(ARCHS[a][0])
